@@ -13,7 +13,7 @@ def siteOf (kv : List (String × String)) (name : String) : Site :=
   ⟨boolOf (arg kv (name ++ "Guard0")), boolOf (arg kv (name ++ "Strict"))⟩
 
 def expCfgOfArgs (kv : List (String × String)) : ExpCfg :=
-  { isExpired := siteOf kv "isExpired", shift := siteOf kv "shift", select := siteOf kv "select",
+  { isExpired := siteOf kv "isExpired", shift := siteOf kv "shift",
     selectCap := siteOf kv "selectCap", coldBuildNe0 := boolOf (arg kv "coldBuildNe0"),
     addBeaconsNe0 := boolOf (arg kv "addBeaconsNe0"), saveBranchNe0 := boolOf (arg kv "saveBranchNe0"),
     reindexNe0 := boolOf (arg kv "reindexNe0"), patchReaddNe0 := boolOf (arg kv "patchReaddNe0"),
@@ -110,13 +110,41 @@ def replyKeys : Resp30 → List Key
 
 def verbs30 : List String := ["shiftexp", "patch", "patchexp", "getidx", "fexp"]
 
+/-- `busyshift K N`: ShiftExpiredTreasures(N) while an Increment of K holds K's record guard: the
+    claim walk skips the busy record (it stays in the index, at its place after the next sort),
+    then the Increment completes.  One request number for the pair. -/
+def busyShift (d : D30) (key : Key) (n : Nat) : D30 × String :=
+  let k := d.k
+  if k.s.dead then (d, "skip")
+  else
+    let opNo := k.opNo + 1
+    let now := k.ck.now + opNo
+    let ck : Clock := { k.ck with nows := now :: k.ck.nows }
+    -- the walk over the index without the busy key
+    let i := Model30.idxBuild d.e (Model.summon k.s)
+    let idx := i.expIdx.getD []
+    let hidden : Inst := { i with expIdx := some (idx.filter (· != key)) }
+    let o := Model30.step k.cfg d.e k.ar now (if Model.exists_ k.s then Model.withLive k.s hidden else k.s) (.shiftExp n)
+    let s1 : State := match o.s.live with
+      | some j => if idx.contains key
+                  then { o.s with live := some { j with expIdx := some (Model30.sortByExp j.recs ((j.expIdx.getD []) ++ [key])) } }
+                  else o.s
+      | none => o.s
+    let body := (showResp30 ck "shiftexp" o.r).drop 8
+    let (k2, r2) := Driver.KV.stepReq { k with s := s1, ck := ck, opNo := opNo } ["inc", "i64", key, "1", "-", "-", "-"]
+    ({ d with k := { k2 with opNo := opNo } }, s!"busyshift{body} ; {r2}")
+
 /-- the expiry-aware requests are answered here from `Model30`; every other line (data requests,
     close / restart / wait / compact / multi-swamp verbs …) goes to the data-request driver, whose
     data step is `Model30`'s (it keeps the expiry index) -/
 def stepLine30 (d : D30) (line : String) : D30 × String :=
   let f := line.splitOn " "
   let verb := f.headD ""
-  if !(verbs30.contains verb) || !d.k.inCase then
+  if verb == "busyshift" && d.k.inCase then
+    match f with
+    | [_, key, n] => busyShift d key (n.toNat?.getD 0)
+    | _ => (d, "bad-op")
+  else if !(verbs30.contains verb) || !d.k.inCase then
     let (k', out) := Driver.KV.stepLine d.k line
     ({ d with k := k' }, out)
   else
@@ -158,7 +186,7 @@ def stepF30 (e : ExpCfg) (cfg : Cfg) (ar : Arith) (now : Int) (s : State) (r : R
   ⟨o.s, (match o.r with | .kv x => x | _ => .skip), (Model.step cfg ar now s r).tags⟩
 
 def goodSites (ne0 : Bool) : ExpCfg :=
-  { isExpired := ⟨true, true⟩, shift := ⟨true, true⟩, select := ⟨true, true⟩, selectCap := ⟨true, true⟩,
+  { isExpired := ⟨true, true⟩, shift := ⟨true, true⟩, selectCap := ⟨true, true⟩,
     coldBuildNe0 := true, addBeaconsNe0 := true, saveBranchNe0 := true, reindexNe0 := true, patchReaddNe0 := true,
     filterGuard0 := true, isEmptyEq0 := true, setZeroNone := true, clearWins := true,
     wireGet := if ne0 then .ne0 else .gt0 }
